@@ -42,8 +42,8 @@ def stepAll (st : St) (cmd : List String) (got : String) : St × Verdict :=
 
 def pureQueries : List String :=
   ["card", "empty", "has", "min", "max", "rank", "sel", "cir", "iwi", "eq", "toarr", "toexarr", "nv", "pv", "nav", "pav",
-   "andcard", "orcard", "isect", "wf", "size", "ser", "wrfail", "wrfailall", "rdsplit", "trunc", "chkeq", "dump", "dig", "kern", "kernwf", "popcnt", "dense", "densechk", "safe", "zdetach", "zsame", "frz", "frzsmall", "frzwfail", "fchk", "fgc",
-   "sched", "concdec", "concagg", "bplanes", "hasnext", "peek?", "peek!", "iterate", "values", "backward", "unset", "ranges"]
+   "andcard", "orcard", "isect", "wf", "size", "ser", "rd", "wrfail", "wrfailall", "rdsplit", "trunc", "chkeq", "dump", "dig", "kern", "kernwf", "popcnt", "dense", "densechk", "safe", "zdetach", "zsame", "frz", "frzsmall", "frzwfail", "fchk", "fgc",
+   "sermany64", "sched", "concdec", "concagg", "bplanes", "hasnext", "peek?", "peek!", "iterate", "values", "backward", "unset", "ranges"]
 
 partial def loop (script go : IO.FS.Stream) (st : St) (lineNo : Nat) (fails : Nat) : IO Nat := do
   let l ← script.getLine
